@@ -220,6 +220,20 @@ example : precompute 2 1 [(10, 0), (11, 1), (12, 0)]
     = .ok [⟨2, [⟨4, 10, 2, 1, 2⟩]⟩, ⟨1, [⟨2, 4, 1, 1, 1⟩]⟩] := by
   decide +kernel
 
+/-- The side condition of `direct` ("at least one file holds a named cell") is
+needed: when no file holds a cell named by the table, no worker buffer is ever
+created and the source fails (`final_output` stays `None`) instead of writing
+an all-zero file. -/
+theorem direct_needs_wanted (nClusters g : Nat) (nameToRow : List (Nat × Nat))
+    (files : List (Nat × List CellRec)) (rows nProc : Nat) (hproc : 1 ≤ nProc)
+    (hw : ∀ f ∈ files, wanted nameToRow f.2 = false) :
+    precompute nClusters g nameToRow files rows nProc = .error .noBuffers :=
+  precompute_no_wanted nClusters g nameToRow files rows nProc hproc hw
+
+example : precompute 2 1 [(10, 0), (11, 1)] [(0, [⟨98, [1]⟩, ⟨99, [7]⟩])] 1 2
+    = .error .noBuffers := by
+  decide +kernel
+
 /-- "The values do not depend on how cells are spread over files, encodings,
 chunks or workers; cells not named by the taxonomy contribute nothing": two
 runs with the same name → row table whose files hold, up to order, the same
